@@ -5258,10 +5258,12 @@ func (a *Agent) TaskDispatch(RequestID uint32, CommandID uint32, Parser *parser.
 											DemonInfo.Reason = ""
 											DemonInfo.Pivots.Parent = a
 
+											// persist the session as active before the link that refers to it
+											teamserver.AgentUpdate(DemonInfo)
+
 											a.Pivots.Links = append(a.Pivots.Links, DemonInfo)
 											teamserver.LinkAdd(a, DemonInfo)
 
-											teamserver.AgentUpdate(DemonInfo)
 											teamserver.AgentUpdate(a)
 										}
 
@@ -5272,11 +5274,12 @@ func (a *Agent) TaskDispatch(RequestID uint32, CommandID uint32, Parser *parser.
 										DemonInfo.Pivots.Parent = a
 
 										a.Pivots.Links = append(a.Pivots.Links, DemonInfo)
-										teamserver.LinkAdd(a, DemonInfo)
 
 										DemonInfo.Info.MagicValue = AgentHdr.MagicValue
 
+										// persist the session before the link that refers to it
 										teamserver.AgentAdd(DemonInfo)
+										teamserver.LinkAdd(a, DemonInfo)
 										teamserver.AgentSendNotify(DemonInfo)
 									}
 
